@@ -142,14 +142,46 @@ pub open spec fn commit_multi_opens(value: int, bases: Seq<Integer>, msgs: Seq<C
 
 // ---- issuance proof (ZKPoK): what verification establishes ------------------------------------------------------
 /// acceptance predicates of the multi-secret protocols (their equations are not unfolded here)
-pub uninterp spec fn ms_accepts(p: NISPMultiSecrets, c: CL03Commitment, pk: CL03PublicKey, bases: Seq<Integer>, idx: Seq<usize>) -> bool;
-pub uninterp spec fn n2c_accepts(p: NISP2Commitments, c1: CL03Commitment, c2: CL03Commitment, pk: CL03PublicKey, bases: Seq<Integer>, cpk: CL03CommitmentPublicKey, idx: Seq<usize>) -> bool;
+/// prod_{t < k} bases[idx[t]] ^ exps[t] (each factor reduced mod n, the product not): the response of the t-th hidden
+/// attribute is raised to the base of ITS position idx[t]
+pub open spec fn resp_prod(bases: Seq<Integer>, exps: Seq<Integer>, idx: Seq<usize>, n: int, k: int) -> int
+    decreases k,
+{
+    if k <= 0 { 1 } else { resp_prod(bases, exps, idx, n, k - 1) * pow_mod(bases[idx[k - 1] as int]@, exps[k - 1]@, n) }
+}
+
+/// decimal strings of the bases at the hidden positions, concatenated in order
+pub open spec fn bases_str(bases: Seq<Integer>, idx: Seq<usize>, k: int) -> Seq<char>
+    decreases k,
+{
+    if k <= 0 { Seq::empty() } else { bases_str(bases, idx, k - 1) + dec_string(bases[idx[k - 1] as int]@) }
+}
+
+/// multi-secret PoK on C = prod a_i^{m_i} * b^r (hidden i): prod a_i^{s1_i} * b^{s2} == t * C^c  with
+/// c = H(a_{i_1} || .. || b || C || t) over decimal strings
+pub open spec fn ms_accepts<CS: CLCiphersuite>(p: NISPMultiSecrets, c: CL03Commitment, pk: CL03PublicKey, bases: Seq<Integer>, idx: Seq<usize>) -> bool {
+    let n = pk.N@;
+    let k = idx.len() as int;
+    let ch = from_digits_be(hash_str::<CS::HashAlg>(bases_str(bases, idx, k) + dec_string(pk.b@) + dec_string(c.value@) + dec_string(p.t@)));
+    &&& p.s1@.len() == idx.len()
+    &&& (resp_prod(bases, p.s1@, idx, n, k) * pow_mod(pk.b@, p.s2@, n)) % n == (p.t@ * pow_mod(c.value@, ch, n)) % n
+}
+
+/// same-secrets proof for C1 (signer key: a_i, b, N) and C2 (trusted party key: g_i, h, N2):
+///   W1 = prod a_i^{d_i} * b^{d_1} * C1^{-c} mod N,  W2 = prod g_i^{d_i} * h^{d_2} * C2^{-c} mod N2,  c == H(W1 || W2)
+pub open spec fn n2c_accepts<CS: CLCiphersuite>(p: NISP2Commitments, c1: CL03Commitment, c2: CL03Commitment, pk: CL03PublicKey, bases: Seq<Integer>, cpk: CL03CommitmentPublicKey, idx: Seq<usize>) -> bool {
+    let (n1, n2) = (pk.N@, cpk.N@);
+    let k = idx.len() as int;
+    let w1 = ((resp_prod(bases, p.d@, idx, n1, k) * pow_mod(pk.b@, p.d_1@, n1)) * pow_mod(c1.value@, -1 * p.challenge@, n1)) % n1;
+    let w2 = ((resp_prod(cpk.g_bases@, p.d@, idx, n2, k) * pow_mod(cpk.h@, p.d_2@, n2)) * pow_mod(c2.value@, -1 * p.challenge@, n2)) % n2;
+    p.challenge@ == from_digits_be(hash_str::<CS::HashAlg>(dec_string(w1) + dec_string(w2)))
+}
 /// acceptance of a Boudot range proof against (bases, modulus, bounds): unfolded in unit cl_range
 pub uninterp spec fn range_accepts(p: Boudot2000RangeProof, g: int, h: int, n: int, lo: int, hi: int) -> bool;
 
 /// the core of ZKPoK::verify_proof: multi-secret PoK on C, per-attribute PoK + range proof, PoK + range proof of r
 pub open spec fn zk_core<CS: CLCiphersuite>(zk: CL03ZKPoK, c: CL03Commitment, pk: CL03PublicKey, bases: Seq<Integer>, idx: Seq<usize>) -> bool {
-    &&& ms_accepts(zk.proof_commited_msgs, c, pk, bases, idx)
+    &&& ms_accepts::<CS>(zk.proof_commited_msgs, c, pk, bases, idx)
     &&& zk.proofs_commited_mi@.len() >= idx.len() && zk.range_proofs_mi@.len() >= idx.len()
     &&& forall|k: int| 0 <= k < idx.len() ==> nisp2sec_accepts::<CS>((#[trigger] zk.proofs_commited_mi@[k]).value, zk.proofs_commited_mi@[k].commitment, bases[idx[k] as int]@, pk.b@, pk.N@)
     &&& forall|k: int| 0 <= k < idx.len() ==> range_accepts(#[trigger] zk.range_proofs_mi@[k], bases[idx[k] as int]@, pk.b@, pk.N@, 0, ipow(2, CS::lm as nat) - 1)
@@ -191,15 +223,58 @@ pub open spec fn issued_v(base: int, pk: CL03PublicKey, rprime: int, e: int, phi
     pow_mod(base * pow_mod(pk.b@, rprime, pk.N@) * pk.c@, inv_mod(e, phi), pk.N@)
 }
 
+/// C18: g lies in the subgroup generated by h modulo n
+pub open spec fn in_subgroup(g: int, h: int, n: int) -> bool {
+    exists|f: int| 0 <= f < n && g == #[trigger] pow_mod(h, f, n)
+}
+
+/// C18: a special RSA modulus: product of two distinct safe primes, each larger than 2^secparam
+pub open spec fn safe_rsa_modulus(n: int, secparam: nat) -> bool {
+    exists|p: int, q: int| n == #[trigger] (p * q) && p != q && is_prime(p) && is_prime(q) && is_prime((p - 1) / 2) && is_prime((q - 1) / 2)
+        && p > ipow(2, secparam) && q > ipow(2, secparam)
+}
+
 pub open spec fn eff_idx0(idx: Option<&[usize]>) -> Seq<usize> {
     match idx { Some(s) => s@, None => seq![0usize] }
 }
 
 // ---- proof of knowledge of a signature (CL03PoKSignature) ----------------------------------------------------------
-pub uninterp spec fn nisp5_accepts(p: NISPSignaturePoK, cpk: CL03CommitmentPublicKey, pk: CL03PublicKey, bases: Seq<Integer>, msgs: Seq<CL03Message>, idx: Seq<usize>, n: int) -> bool;
+/// attribute walk of the signature proof: position i < k contributes bases[i]^{s_5[rank]} when i is hidden (rank = number of
+/// hidden positions below i) and bases[i]^{m + m*c} when revealed (m = the next revealed attribute).  Returns
+/// (product of the reduced factors, hidden positions seen, revealed positions seen).
+pub open spec fn n5_walk(bases: Seq<Integer>, s5: Seq<Integer>, msgs: Seq<CL03Message>, idx: Seq<usize>, c: int, n: int, k: int) -> (int, int, int)
+    decreases k,
+{
+    if k <= 0 { (1, 0, 0) } else {
+        let w = n5_walk(bases, s5, msgs, idx, c, n, k - 1);
+        if idx.contains((k - 1) as usize) {
+            (w.0 * pow_mod(bases[k - 1]@, s5[w.1]@, n), w.1 + 1, w.2)
+        } else {
+            let mi = msgs[w.2].value@;
+            (w.0 * pow_mod(bases[k - 1]@, mi + mi * c, n), w.1, w.2 + 1)
+        }
+    }
+}
+
+/// verifier's predicate of the proof of knowledge of a signature (five recomputed commitments, all modulo the signer's N):
+///   t1 = Cv^{s4} / (prod a_i^{x_i}) / b^{s6} / g0^{s8} * c^{-ch},  t2 = g0^{s7} h^{s1} Cw^{-ch},  t3 = Cw^{s4} / g0^{s8} / h^{s2},
+///   t4 = prod g_i^{x_i} * h^{s3} * Cx^{-ch},  t5 = g0^{s4} h^{s9} Ce^{-ch};   ch == H(t1 || t2 || t3 || t4 || t5)
+pub open spec fn nisp5_accepts<CS: CLCiphersuite>(p: NISPSignaturePoK, cpk: CL03CommitmentPublicKey, pk: CL03PublicKey, bases: Seq<Integer>, msgs: Seq<CL03Message>, idx: Seq<usize>, k: int) -> bool {
+    let n = pk.N@;
+    let ch = p.challenge@;
+    let g0 = cpk.g_bases@[0]@;
+    let t_cx = n5_walk(bases, p.s_5@, msgs, idx, ch, n, k).0 % n;
+    let t1 = (pow_mod(p.Cv.value@, p.s_4@, n) * divm_spec(1, t_cx, n) * pow_mod(divm_spec(1, pk.b@, n), p.s_6@, n)
+        * pow_mod(divm_spec(1, g0, n), p.s_8@, n) * pow_mod(pk.c@, -1 * ch, n)) % n;
+    let t2 = (pow_mod(g0, p.s_7@, n) * pow_mod(cpk.h@, p.s_1@, n) * pow_mod(p.Cw.value@, -1 * ch, n)) % n;
+    let t3 = (pow_mod(p.Cw.value@, p.s_4@, n) * pow_mod(divm_spec(1, g0, n), p.s_8@, n) * pow_mod(divm_spec(1, cpk.h@, n), p.s_2@, n)) % n;
+    let t4 = (n5_walk(cpk.g_bases@, p.s_5@, msgs, idx, ch, n, k).0 * pow_mod(cpk.h@, p.s_3@, n) * pow_mod(p.Cx.value@, -1 * ch, n)) % n;
+    let t5 = (pow_mod(g0, p.s_4@, n) * pow_mod(cpk.h@, p.s_9@, n) * pow_mod(p.Ce.value@, -1 * ch, n)) % n;
+    ch == from_digits_be(hash_str::<CS::HashAlg>(dec_string(t1) + dec_string(t2) + dec_string(t3) + dec_string(t4) + dec_string(t5)))
+}
 
 pub open spec fn spok_core<CS: CLCiphersuite>(p: CL03PoKSignature, cpk: CL03CommitmentPublicKey, pk: CL03PublicKey, bases: Seq<Integer>, msgs: Seq<CL03Message>, idx: Seq<usize>, n: int) -> bool {
-    &&& nisp5_accepts(p.spok, cpk, pk, bases, msgs, idx, n)
+    &&& nisp5_accepts::<CS>(p.spok, cpk, pk, bases, msgs, idx, n)
     &&& p.spok.Ce.value@ == p.range_proof_e.E@
     &&& range_accepts(p.range_proof_e, cpk.g_bases@[0]@, cpk.h@, cpk.N@, ipow(2, (CS::le - 1) as nat) + 1, ipow(2, CS::le as nat) - 1)
     &&& p.proofs_commited_mi@.len() >= idx.len() && p.range_proofs_commited_mi@.len() >= idx.len()
